@@ -286,3 +286,230 @@ def replay_padding(model, obligation, version, level):
     if 'exact_length' in (obligation or '') and len(bits) != isocap:
         return dict(confirmed=True, call=call, detail='buffer holds %d bits, capacity is %d' % (len(bits), isocap))
     return dict(confirmed=False, call=call, detail='first %d bits equal the ISO stream' % isocap)
+
+
+# ---------------------------------------------------------------- C02 replays (native execution of the real stage)
+from . import layout as _layout
+
+
+def replay_layout(model, obligation, version):
+    size = encoder.calc_matrix_size(version)
+    if size != iso.symbol_size(version):
+        return dict(confirmed=True, call='calc_matrix_size(%r)' % version, detail='returned %r, ISO %r' % (size, iso.symbol_size(version)))
+    m = encoder.make_matrix(size, size)
+    encoder.add_finder_patterns(m, size, size)
+    encoder.add_alignment_patterns(m, size, size)
+    fm = _layout.function_map(version)
+    bad = []
+    for (i, j), (kind, val) in fm.items():
+        want = 2 if kind == _layout.DATA else (0 if (val is None or kind == _layout.DARK) else val)
+        if m[i][j] != want:
+            bad.append((i, j, kind, m[i][j], want))
+    call = 'make_matrix(%d,%d); add_finder_patterns; add_alignment_patterns (version %s)' % (size, size, iso.version_name(version))
+    if bad:
+        # user-visible: a real symbol of that version
+        return dict(confirmed=True, call=call, detail='%d modules differ from the ISO function pattern map, first (row, col, kind, got, want): %r'
+                                                      % (len(bad), bad[:4]))
+    return dict(confirmed=False, call=call, detail='function patterns equal the ISO map')
+
+
+def replay_format_info(model, obligation, version, level, mask):
+    size = iso.symbol_size(version)
+    m = tuple(bytearray([7] * size) for _ in range(size))
+    encoder.add_format_info(m, version, _lc(level), mask)
+    word = _layout.format_word(version, level, mask)
+    want = {}
+    for copy in _layout.format_positions(version):
+        for b, p in enumerate(copy):
+            want[p] = (word >> b) & 1
+    if version >= 1:
+        want[(size - 8, 8)] = 1
+    bad = []
+    for i in range(size):
+        for j in range(size):
+            w = want.get((i, j), 7)
+            if m[i][j] != w:
+                bad.append((i, j, m[i][j], w))
+    call = 'add_format_info(<%dx%d matrix of 7s>, %r, %r, %r)' % (size, size, version, level, mask)
+    return dict(confirmed=bool(bad), call=call, detail='cells (row, col, got, want; 7 = untouched): %r' % (bad[:6],))
+
+
+def replay_version_info(model, obligation, version):
+    size = iso.symbol_size(version)
+    m = tuple(bytearray([7] * size) for _ in range(size))
+    encoder.add_version_info(m, version)
+    want = {}
+    if version >= 7:
+        word = _layout.golay18_6(version)
+        for blk in _layout.version_positions(version):
+            for b, p in enumerate(blk):
+                want[p] = (word >> b) & 1
+    bad = [(i, j, m[i][j], want.get((i, j), 7)) for i in range(size) for j in range(size) if m[i][j] != want.get((i, j), 7)]
+    return dict(confirmed=bool(bad), call='add_version_info(<matrix of 7s>, %r)' % version, detail='cells (row, col, got, want): %r' % (bad[:6],))
+
+
+# ---------------------------------------------------------------- C03 replays
+from . import gf as _gf
+
+
+def replay_make_blocks(model, obligation, version, level):
+    """real make_blocks on concrete data: unit vector of the reported data byte (or a ramp)"""
+    ec_infos = consts.ECC[version][_lc(level)]
+    structure = iso.block_structure(version, level)
+    shapes = [(t, d) for nb, t, d in structure for _ in range(nb)]
+    n_data = sum(d for t, d in shapes)
+    m = model or {}
+    datasets = []
+    if m.get('unit_data_byte') is not None and m.get('block') is not None:
+        off = sum(d for t, d in shapes[:m['block']])
+        u = [0] * n_data
+        if 0 <= off + m['unit_data_byte'] < n_data:
+            u[off + m['unit_data_byte']] = 1
+            datasets.append(u)
+    datasets.append([(7 * i + 1) % 256 for i in range(n_data)])
+    call = 'make_blocks(consts.ECC[%r][%r], Buffer(<%d data codewords>))' % (version, level, n_data)
+    for data in datasets:
+        bits = []
+        for b in data:
+            bits.extend((b >> i) & 1 for i in reversed(range(8)))
+        if version in (iso.M1, iso.M3):
+            bits = bits[:-4]
+            data = data[:-1] + [data[-1] & 0xf0]
+        try:
+            db, eb = encoder.make_blocks(ec_infos, encoder.Buffer(bits))
+        except Exception as ex:
+            return dict(confirmed=True, call=call, detail='raised %r' % (ex,))
+        if len(db) != len(shapes):
+            return dict(confirmed=True, call=call, detail='%d blocks, ISO Table 9: %d' % (len(db), len(shapes)))
+        off = 0
+        for k, (t, d) in enumerate(shapes):
+            if list(db[k]) != data[off:off + d]:
+                return dict(confirmed=True, call=call, detail='data block %d is not the slice [%d:%d] of the data codewords' % (k, off, off + d))
+            cw = list(db[k]) + list(eb[k])
+            if len(eb[k]) != t - d:
+                return dict(confirmed=True, call=call, detail='block %d has %d ec codewords, ISO %d' % (k, len(eb[k]), t - d))
+            syn = _gf.syndromes(cw, t - d)
+            if any(syn):
+                return dict(confirmed=True, call=call,
+                            detail='block %d (%d,%d) is not a Reed-Solomon codeword: syndromes %r for data %r...' % (k, t, d, syn[:6], data[off:off + 6]))
+            off += d
+    return dict(confirmed=False, call=call, detail='all blocks are valid codewords for the tried data')
+
+
+def replay_final_message(model, obligation, version, level):
+    structure = iso.block_structure(version, level)
+    shapes = [(t, d) for nb, t, d in structure for _ in range(nb)]
+    n_data = sum(d for t, d in shapes)
+    data = [(11 * i + 3) % 256 for i in range(n_data)]
+    bits = []
+    for b in data:
+        bits.extend((b >> i) & 1 for i in reversed(range(8)))
+    half = version in (iso.M1, iso.M3)
+    if half:
+        bits = bits[:-4]
+        data[-1] &= 0xf0
+    call = 'make_final_message(%r, %r, Buffer(<%d bits>))' % (version, level, len(bits))
+    try:
+        out = list(encoder.make_final_message(version, _lc(level), encoder.Buffer(bits)).getbits())
+    except Exception as ex:
+        return dict(confirmed=True, call=call, detail='raised %r' % (ex,))
+    blocks = []
+    off = 0
+    for t, d in shapes:
+        blk = data[off:off + d]
+        blocks.append((blk, _gf.rs_remainder(blk, t - d)))
+        off += d
+    want = []
+    for i in range(max(d for t, d in shapes)):
+        for (blk, ec), (t, d) in zip(blocks, shapes):
+            if i < d and not (half and i == d - 1):
+                want.extend((blk[i] >> k) & 1 for k in reversed(range(8)))
+    if half:
+        want.extend((blocks[0][0][-1] >> k) & 1 for k in (7, 6, 5, 4))
+    for i in range(max(t - d for t, d in shapes)):
+        for (blk, ec), (t, d) in zip(blocks, shapes):
+            if i < t - d:
+                want.extend((ec[i] >> k) & 1 for k in reversed(range(8)))
+    want.extend([0] * iso.remainder_bits(version))
+    if out != want:
+        k = next((i for i, (a, b) in enumerate(zip(out, want)) if a != b), min(len(out), len(want)))
+        return dict(confirmed=True, call=call, detail='final message has %d bits (ISO %d); first difference at bit %d' % (len(out), len(want), k))
+    return dict(confirmed=False, call=call, detail='final message equals the ISO interleaving')
+
+
+def replay_placement(model, obligation, version):
+    size = iso.symbol_size(version)
+    m = encoder.make_matrix(size, size)
+    encoder.add_finder_patterns(m, size, size)
+    encoder.add_alignment_patterns(m, size, size)
+    before = [bytes(r) for r in m]
+    order = _layout.placement_order(version)
+    bits = [(i * 7 + i // 3) % 2 for i in range(len(order))]
+    call = 'add_codewords(<function pattern matrix v%s>, Buffer(<%d bits>), %r)' % (iso.version_name(version), len(bits), version)
+    try:
+        encoder.add_codewords(m, encoder.Buffer(bits), version)
+    except Exception as ex:
+        return dict(confirmed=True, call=call, detail='raised %r' % (ex,))
+    pos = {p: k for k, p in enumerate(order)}
+    bad = []
+    for i in range(size):
+        for j in range(size):
+            k = pos.get((i, j))
+            want = bits[k] if k is not None else before[i][j]
+            if m[i][j] != want:
+                bad.append((i, j, m[i][j], want))
+    return dict(confirmed=bool(bad), call=call, detail='%d modules differ (row, col, got, want): %r' % (len(bad), bad[:5]))
+
+
+def replay_table(model, obligation, table):
+    """ground table lemma: re-evaluate natively on the real table"""
+    bad = []
+    L = {'L': consts.ERROR_LEVEL_L, 'M': consts.ERROR_LEVEL_M, 'Q': consts.ERROR_LEVEL_Q, 'H': consts.ERROR_LEVEL_H, None: None}
+    if table == 'GEN_POLY':
+        need = sorted({t - d for v in iso.ALL_VERSIONS for lv in iso.levels_of(v) for nb, t, d in iso.block_structure(v, lv)})
+        for ec in need:
+            want = [_gf.LOG[k] for k in _gf.generator_poly(ec)[1:]]
+            if list(consts.GEN_POLY.get(ec, ())) != want:
+                bad.append(('GEN_POLY[%d]' % ec, list(consts.GEN_POLY.get(ec, ())), want))
+    elif table == 'GALIOS':
+        for i in range(255):
+            if consts.GALIOS_EXP[i] != _gf.EXP[i]:
+                bad.append(('GALIOS_EXP[%d]' % i, consts.GALIOS_EXP[i], _gf.EXP[i]))
+        for x in range(1, 256):
+            if consts.GALIOS_LOG[x] != _gf.LOG[x]:
+                bad.append(('GALIOS_LOG[%d]' % x, consts.GALIOS_LOG[x], _gf.LOG[x]))
+    elif table == 'ECC':
+        for v in iso.ALL_VERSIONS:
+            for lv in iso.levels_of(v):
+                got = [tuple(e) for e in consts.ECC[v][L[lv]]]
+                if got != iso.block_structure(v, lv):
+                    bad.append(('ECC[%s][%s]' % (iso.version_name(v), lv), got, iso.block_structure(v, lv)))
+    elif table == 'SYMBOL_CAPACITY':
+        for v in iso.ALL_VERSIONS:
+            for lv in iso.levels_of(v):
+                got = consts.SYMBOL_CAPACITY.get(v, {}).get(L[lv])
+                if got != iso.data_capacity_bits(v, lv):
+                    bad.append(('SYMBOL_CAPACITY[%s][%s]' % (iso.version_name(v), lv), got, iso.data_capacity_bits(v, lv)))
+    elif table == 'FORMAT':
+        for lv in iso.LEVELS:
+            for m in range(8):
+                idx = (iso.LEVEL_BITS[lv] << 3) | m
+                if consts.FORMAT_INFO[idx] != _layout.format_word(1, lv, m):
+                    bad.append(('FORMAT_INFO[%d]' % idx, consts.FORMAT_INFO[idx], _layout.format_word(1, lv, m)))
+        k = 0
+        for v in iso.MICRO:
+            for lv in iso.levels_of(v):
+                for m in range(4):
+                    if consts.FORMAT_INFO_MICRO[(k << 2) | m] != _layout.format_word(v, lv, m):
+                        bad.append(('FORMAT_INFO_MICRO[%d]' % ((k << 2) | m), consts.FORMAT_INFO_MICRO[(k << 2) | m], _layout.format_word(v, lv, m)))
+                k += 1
+        for v in range(7, 41):
+            if consts.VERSION_INFO[v - 7] != _layout.golay18_6(v):
+                bad.append(('VERSION_INFO[%d]' % (v - 7), consts.VERSION_INFO[v - 7], _layout.golay18_6(v)))
+        for v in range(2, 41):
+            if tuple(consts.ALIGNMENT_POS[v - 2]) != tuple(_layout.alignment_positions(v)):
+                bad.append(('ALIGNMENT_POS[%d]' % (v - 2), consts.ALIGNMENT_POS[v - 2], _layout.alignment_positions(v)))
+    else:
+        return dict(confirmed=None, detail='no native table replay for %r' % table)
+    return dict(confirmed=bool(bad), call='segno.consts.%s compared natively with the ISO transcription' % table,
+                detail='(cell, got, ISO): %r' % (bad[:3],))
